@@ -5,6 +5,10 @@
 // evmDenomOf, ...). Every `assumed` below summarises store + codec code and is listed in the evidence (trusted_base).
 package keeper
 
+// A Keeper value is wired once while the app is built (NewKeeper, WithCpcKeeper) and never written afterwards: pointers to it
+// (also to a Keeper held as a field of a decorator) are pointers to an immutable object (trusted, T4).
+//@ immutable type Keeper
+
 //@ import sdk "github.com/cosmos/cosmos-sdk/types"
 //@ import sdkmath "cosmossdk.io/math"
 //@ import common "github.com/ethereum/go-ethereum/common"
@@ -14,6 +18,7 @@ package keeper
 
 // params.go GetEip155ChainId: the stored chain id (panics "chain ID not set" when it is 0: never after InitGenesis).
 //@ ghost var evmChainId map[int]int
+//@ layered evmChainId
 //@ func (k Keeper) GetEip155ChainId(ctx sdk.Context) (id evmtypes.Eip155ChainId)
 //@   assumed
 //@   modifies nothing
@@ -29,6 +34,7 @@ package keeper
 
 // statedb.go GetCodeHash: stored code hash; EmptyCodeHash for an existing account without one; zero hash otherwise.
 //@ ghost var evmCodeHash map[int]map[bytes]common.Hash
+//@ layered evmCodeHash
 //@ func (k *Keeper) GetCodeHash(ctx sdk.Context, addr []byte) common.Hash
 //@   assumed
 //@   modifies nothing
@@ -45,6 +51,7 @@ package keeper
 // block is recorded once per block (first caller wins), the entry 256 blocks back is pruned when it is written; nothing else.
 //@ ghost var evmBlockHash map[int]map[int]bytes
 //@ ghost var evmHasBlockHash map[int]map[int]bool
+//@ layered evmBlockHash, evmHasBlockHash
 //@ func (k Keeper) SetBlockHashForCurrentBlockAndPruneOld(ctx sdk.Context)
 //@   assumed
 //@   modifies evmBlockHash[layer(ctx)], evmHasBlockHash[layer(ctx)]
